@@ -10,7 +10,7 @@ fn cases(tier: Tier, q: u64, t: u64) -> u64 {
 }
 
 fn play_worker(ctx: &WorkerCtx, mode: Mode, total: u64) -> Result<(), Fail> {
-    let cfg = WalkCfg { mode, all_moves_every: 4, full_sweep_every: ctx.tier.pick(96, 48) };
+    let cfg = WalkCfg { mode, all_moves_every: 4, full_sweep_every: ctx.tier.pick(1024, 256) };
     let max_len = ctx.tier.pick(120, 200);
     run_proptest(ctx, mode as u64, ctx.share(total), play_strategy(max_len, 28), case_json, |case, st| run_play(&cfg, case, st))
 }
@@ -30,7 +30,7 @@ const ASSUME_PLAY: &[&str] = &[
 
 pub const C01: CheckDef = CheckDef {
     id: "C01",
-    worker: |ctx| play_worker(ctx, Mode::C01, cases(ctx.tier, 6_000, 400_000)),
+    worker: |ctx| play_worker(ctx, Mode::C01, cases(ctx.tier, 150_000, 3_000_000)),
     replay: |v| play_replay(Mode::C01, v),
     rule: "case = (root, clocks, playout choices); every visited position compares legals() as a sorted set with the reference (plus len/is_empty, is_legal on all legal moves, near-miss and generated illegal triples, periodically all 20480 triples). evaluations = positions compared. Non-trivial = position with the mover in check, a pinned piece, an en-passant marker with a capturer beside it, a castling right with an empty path, or a promotion available; distinct by (placement, turn, rights, marker).",
     assumptions: ASSUME_PLAY,
@@ -43,7 +43,7 @@ pub const C01: CheckDef = CheckDef {
 
 pub const C02: CheckDef = CheckDef {
     id: "C02",
-    worker: |ctx| play_worker(ctx, Mode::C02, cases(ctx.tier, 6_000, 300_000)),
+    worker: |ctx| play_worker(ctx, Mode::C02, cases(ctx.tier, 30_000, 600_000)),
     replay: |v| play_replay(Mode::C02, v),
     rule: "every played move and, on every 4th position, every legal move: move_new vs reference successor (64 squares, turn, clocks, FEN text incl. rights and marker, bitboard partition), move_mut/move_into equal to move_new; illegal triples must be refused by all three operations leaving receiver/output untouched. evaluations = moves applied + refusals. Non-trivial = castling, en passant, promotion, double step, capture on a rook home square, king/rook leaving home with a right, or an illegal triple aimed at an own piece; distinct by (position key, move).",
     assumptions: ASSUME_PLAY,
@@ -56,7 +56,7 @@ pub const C02: CheckDef = CheckDef {
 
 pub const C03: CheckDef = CheckDef {
     id: "C03",
-    worker: |ctx| play_worker(ctx, Mode::C03, cases(ctx.tier, 6_000, 300_000)),
+    worker: |ctx| play_worker(ctx, Mode::C03, cases(ctx.tier, 30_000, 600_000)),
     replay: |v| play_replay(Mode::C03, v),
     rule: "after every ply: in_check()/state() vs reference; the moved board vs the same position parsed from the reference FEN (and built with the builder when no right is held): legal-move sets, check, state, zobrist, std hash, text, {:?} and {:#?}. evaluations = positions compared. Non-trivial = last move gave check (classified direct/discovered/castling/promotion/en-passant/double), a pin exists, or the position is mate/stalemate/clock-draw; distinct by (position key, last move).",
     assumptions: ASSUME_PLAY,
@@ -71,7 +71,7 @@ pub const C05: CheckDef = CheckDef {
     id: "C05",
     worker: |ctx| {
         crate::c05_extra::directed(ctx)?;
-        play_worker(ctx, Mode::C05, cases(ctx.tier, 8_000, 400_000))
+        play_worker(ctx, Mode::C05, cases(ctx.tier, 150_000, 3_000_000))
     },
     replay: |v| {
         if v.get("directed").is_some() {
